@@ -8,7 +8,9 @@ import (
 	"fmt"
 	"math/big"
 	"sort"
+	"time"
 
+	. "gethverif/harness/hxlib"
 	"github.com/ethereum/go-ethereum/common"
 	"github.com/ethereum/go-ethereum/core/state"
 	"github.com/ethereum/go-ethereum/core/tracing"
@@ -18,7 +20,6 @@ import (
 	"github.com/ethereum/go-ethereum/crypto"
 	"github.com/ethereum/go-ethereum/params"
 	"github.com/holiman/uint256"
-	. "gethverif/harness/hxlib"
 )
 
 // ---------------------------------------------------------------------------
@@ -150,6 +151,10 @@ func parseCase(c Sx) tcase {
 	} else {
 		t.value, t.data, t.gas = bi(tx[0]), AsBytes(tx[1]), bi(tx[2]).Uint64()
 	}
+	if t.gas == 0 || t.gas > 1<<36 {
+		// runtime.setDefaults turns a zero GasLimit into MaxUint64; huge limits make runs unbounded
+		panic("hxlib: gas limit outside the generated range [1, 2^36]")
+	}
 	return t
 }
 
@@ -278,7 +283,12 @@ type runOut struct {
 	steps    int
 	ops      map[byte]bool
 	panicked string
+	overrun  bool // step budget exceeded (only shrink candidates do that)
 }
+
+const stepBudget = 3000000
+
+type budgetExceeded struct{}
 
 // execute runs the case under the rule set [level] with a tracer that (a) collects the
 // addresses / storage keys touched (for the post-state projection) and (b) checks the resource
@@ -306,6 +316,9 @@ func execute(t tcase, level int) (out runOut) {
 		},
 		OnOpcode: func(pc uint64, op byte, gas, cost uint64, scope tracing.OpContext, rData []byte, depth int, err error) {
 			out.steps++
+			if out.steps > stepBudget {
+				panic(budgetExceeded{})
+			}
 			out.ops[op] = true
 			sl := len(scope.StackData())
 			ml := len(scope.MemoryData())
@@ -368,6 +381,10 @@ func execute(t tcase, level int) (out runOut) {
 	}
 	defer func() {
 		if e := recover(); e != nil {
+			if _, ok := e.(budgetExceeded); ok {
+				out.overrun = true
+				return
+			}
 			out.panicked = fmt.Sprint(e)
 		}
 	}()
@@ -468,6 +485,9 @@ func run(c Sx) Result {
 	res := Result{}
 	var fails []string
 	main := execute(t, modelFork[t.fork%3])
+	if main.overrun {
+		panic("hxlib: step budget exceeded")
+	}
 	if main.panicked != "" {
 		res.Obs = L(I(-2))
 		fails = append(fails, "panic under "+forkNames[modelFork[t.fork%3]]+": "+main.panicked)
@@ -497,7 +517,11 @@ func run(c Sx) Result {
 			check(level, main)
 			continue
 		}
-		check(level, execute(t, level))
+		o := execute(t, level)
+		if o.overrun {
+			panic("hxlib: step budget exceeded")
+		}
+		check(level, o)
 	}
 	if len(fails) > 0 {
 		if len(fails) > 3 {
@@ -542,7 +566,8 @@ func main() {
 			"templates for self-recursion to depth 1025, operand-stack growth to 1024/1025, memory growth, plus an adversarial stream of raw random bytes and mutated programs; " +
 			"gas limits random and, for a third of the cases, exactly the gas used by a generous run and that value +-1. Each case is compared with the model under Cancun / Prague / Osaka " +
 			"and run under all 16 rule sets Frontier..Bogota for the resource oracle. Non-trivial: the outermost frame or its callees executed at least 3 instructions; distinct = distinct case line.",
-		Gen: gen,
-		Run: run,
+		Gen:         gen,
+		CaseTimeout: 40 * time.Second,
+		Run:         run,
 	})
 }
